@@ -1214,6 +1214,24 @@ class Interp:
 
     ev_GeneratorExp = ev_ListComp
 
+    def ev_SetComp(self, n, env):
+        r = self.comp_iter(n.generators, env, lambda sub: self.ev(n.elt, sub))
+        if not isinstance(r, list):
+            raise Unsupported("set comprehension over a symbolic sequence")
+        try:
+            return set(r)
+        except TypeError:
+            raise Unsupported("set of unhashable model values")
+
+    def ev_DictComp(self, n, env):
+        r = self.comp_iter(n.generators, env, lambda sub: (self.ev(n.key, sub), self.ev(n.value, sub)))
+        if not isinstance(r, list):
+            raise Unsupported("dict comprehension over a symbolic sequence")
+        try:
+            return dict(r)
+        except TypeError:
+            raise Unsupported("dict with unhashable model keys")
+
     def ev_Starred(self, n, env):
         raise Unsupported("starred expression")
 
